@@ -28,6 +28,7 @@ func main() {
 	budget := flag.Duration("budget", 0, "stop replaying after this long")
 	quiesce := flag.Bool("quiesce", false, "after each behaviour deliver all commits to all nodes and compare them")
 	only := flag.Int("only", -1, "replay only this behaviour index")
+	subEvery := flag.Int("sub", 0, "every k-th behaviour runs with a slow GraphQL subscriber on every node")
 	flag.Parse()
 	split := func(s string) []string {
 		if s == "" {
@@ -56,7 +57,7 @@ func main() {
 		all = all[:*maxB]
 	}
 	ctx := context.Background()
-	d, err := mergereplay.New(ctx, mergereplay.Config{Nodes: *nodes, Ctrs: split(*ctrs), Regs: split(*regs), Variant: *variant, Seed: *seed, AsyncEvery: *async, Quiesce: *quiesce})
+	d, err := mergereplay.New(ctx, mergereplay.Config{Nodes: *nodes, Ctrs: split(*ctrs), Regs: split(*regs), Variant: *variant, Seed: *seed, AsyncEvery: *async, Quiesce: *quiesce, SubEvery: *subEvery})
 	if err != nil {
 		fmt.Fprintln(os.Stderr, "driver:", err)
 		os.Exit(2)
